@@ -18,6 +18,10 @@ pub enum SrcFault {
     Other,
     /// `ErrorKind::WouldBlock` – what a non-blocking source returns.
     WouldBlock,
+    /// Less common error kinds a `Read` implementation may return.
+    InvalidData,
+    OutOfMemory,
+    BrokenPipe,
     /// `ErrorKind::UnexpectedEof` reported by the source itself although more
     /// data follows (a source that lies about EOF once).
     SpuriousEof,
@@ -31,10 +35,13 @@ impl SrcFault {
             SrcFault::ConnReset => Error::new(ErrorKind::ConnectionReset, "sim: reset"),
             SrcFault::Other => Error::new(ErrorKind::Other, "sim: other"),
             SrcFault::WouldBlock => Error::new(ErrorKind::WouldBlock, "sim: would block"),
+            SrcFault::InvalidData => Error::new(ErrorKind::InvalidData, "sim: invalid data"),
+            SrcFault::OutOfMemory => Error::new(ErrorKind::OutOfMemory, "sim: out of memory"),
+            SrcFault::BrokenPipe => Error::new(ErrorKind::BrokenPipe, "sim: broken pipe"),
             SrcFault::SpuriousEof => Error::new(ErrorKind::UnexpectedEof, "sim: spurious eof"),
         }
     }
-    pub const HARD: [SrcFault; 4] = [SrcFault::TimedOut, SrcFault::ConnReset, SrcFault::Other, SrcFault::WouldBlock];
+    pub const HARD: [SrcFault; 7] = [SrcFault::TimedOut, SrcFault::ConnReset, SrcFault::Other, SrcFault::WouldBlock, SrcFault::InvalidData, SrcFault::OutOfMemory, SrcFault::BrokenPipe];
 }
 
 #[derive(Default, Debug)]
